@@ -10,7 +10,7 @@ use aws_smt_strings::smt_regular_expressions as smt;
 
 use crate::ast::rmatch;
 use crate::calls::*;
-use crate::dfa::Dfa;
+use crate::dfa::{Cell, Dfa};
 use crate::exec::*;
 use crate::gen::Prop;
 use crate::model::*;
@@ -156,7 +156,10 @@ impl<'t> World<'t> {
                             format!("get_string({}) returned the ill-formed string {:x?}", show(e), w)
                         })?;
                         let cells = self.alpha.to_cells(&w);
-                        let member = rmatch(&info.ast, &cells);
+                        let member = match &info.dfa {
+                            Some(d) => d.accepts(&cells),
+                            None => rmatch(&info.ast, &cells).unwrap_or(true),
+                        };
                         self.judge(Prop::C05, "c05.witness-is-member", member, || {
                             format!("get_string({}) returned {:x?} which is not in the language", show(e), w)
                         })?;
@@ -320,8 +323,8 @@ impl<'t> World<'t> {
                         self.eval(Prop::C16, "c16.included-in-sound", mix(a.fingerprint(), b.fingerprint()), got as u64, nt);
                         if got {
                             if let Some(w) = a.shortest_not_subset(b) {
-                                let ina = rmatch(&info.ast, &w);
-                                let inb = rmatch(&sinfo.ast, &w);
+                                let ina = rmatch(&info.ast, &w).unwrap_or(true);
+                                let inb = rmatch(&sinfo.ast, &w).unwrap_or(false);
                                 if !(ina && !inb) {
                                     return Err(Stop::Harness(format!(
                                         "R-dfa/R-match disagree on inclusion witness {:?}: {} vs {}",
@@ -349,11 +352,16 @@ impl<'t> World<'t> {
                 let bound: Option<usize> = if st.op == Compile {
                     None
                 } else {
-                    Some(match st.a[1] % 4 {
+                    Some(match st.a[1] % 8 {
                         0 => 1 + st.a[2] as usize,
                         1 => 4 * (1 + st.a[2] as usize),
                         2 => 1_000_000,
-                        _ => 0,
+                        3 => 0,
+                        // bounds far above any state count, around the 32-bit boundary
+                        4 => u32::MAX as usize,
+                        5 => (1usize << 32) + st.a[2] as usize,
+                        6 => (st.a[2] as usize + 1) << 32,
+                        _ => usize::MAX,
                     })
                 };
                 let ms = &mut self.mgrs[mi];
@@ -396,6 +404,17 @@ impl<'t> World<'t> {
                     unreachable!();
                 } else {
                     self.bump("fault.F3_try_compile_aborted");
+                    // None means "more than `bound` states were counted": with a bound of 2^32 - 1 or
+                    // more that cannot have happened in the time the call took
+                    let b = bound.unwrap();
+                    if b >= u32::MAX as usize {
+                        if self.on(Prop::C19) {
+                            self.eval(Prop::C19, "c19.try-compile-bound", fp(&info.dfa), b as u64, nontrivial(&info.dfa));
+                        }
+                        self.judge(Prop::C19, "c19.try-compile-bound", false, || {
+                            format!("try_compile({}, {}) returned None although the bound is astronomically larger than the number of derivatives", show(e), b)
+                        })?;
+                    }
                 }
                 self.push_obs(ci, st.op.name(), Obs::Nothing);
                 Ok(())
@@ -424,7 +443,9 @@ impl<'t> World<'t> {
         };
         if self.on(Prop::C01) || self.on(Prop::C07) {
             if let Some(d) = &info.dfa {
-                let mut cellstrs: Vec<Vec<u8>> = Vec::new();
+                // automata with long shortest paths (counted loops) get longer walks
+                let extra = if d.n() > 40 { d.n().min(400) } else { 0 };
+                let mut cellstrs: Vec<Vec<Cell>> = Vec::new();
                 if let Some(w) = d.shortest_accepted() {
                     cellstrs.push(w);
                 }
@@ -432,13 +453,13 @@ impl<'t> World<'t> {
                     cellstrs.push(w);
                 }
                 for _ in 0..2 {
-                    if let Some(w) = d.steered(&mut rng, true, 10) {
+                    if let Some(w) = d.steered(&mut rng, true, 10 + extra) {
                         // one-edit mutation of a member
                         let mut m = w.clone();
                         match rng.below(3) {
                             0 if !m.is_empty() => {
                                 let i = rng.below(m.len() as u64) as usize;
-                                m[i] = rng.below(self.k as u64) as u8;
+                                m[i] = rng.below(self.k as u64) as Cell;
                             }
                             1 if !m.is_empty() => {
                                 let i = rng.below(m.len() as u64) as usize;
@@ -446,18 +467,18 @@ impl<'t> World<'t> {
                             }
                             _ => {
                                 let i = rng.below(m.len() as u64 + 1) as usize;
-                                m.insert(i, rng.below(self.k as u64) as u8);
+                                m.insert(i, rng.below(self.k as u64) as Cell);
                             }
                         }
                         cellstrs.push(w);
                         cellstrs.push(m);
                     }
-                    if let Some(w) = d.steered(&mut rng, false, 10) {
+                    if let Some(w) = d.steered(&mut rng, false, 10 + extra) {
                         cellstrs.push(w);
                     }
                 }
                 for w in cellstrs {
-                    if w.len() <= 12 {
+                    if w.len() <= 420 {
                         tests.push(self.instantiate(&w, &mut rng));
                     }
                 }
@@ -508,9 +529,16 @@ impl<'t> World<'t> {
             }
             if self.on(Prop::C01) {
                 let cells = self.alpha.to_cells(w);
-                let in_term = rmatch(&info.ast, &cells);
-                if let Some(d) = &info.dfa {
-                    if d.accepts(&cells) != in_term {
+                let by_dfa = info.dfa.as_ref().map(|d| d.accepts(&cells));
+                // the definitional matcher is cubic: on long strings it is only used when there is
+                // no reference automaton
+                let by_match = if cells.len() <= 32 || by_dfa.is_none() {
+                    rmatch(&info.ast, &cells)
+                } else {
+                    None
+                };
+                if let (Some(a), Some(b)) = (by_match, by_dfa) {
+                    if a != b {
                         return Err(Stop::Harness(format!(
                             "R-dfa and R-match disagree: {} on {:?}",
                             info.ast, cells
@@ -518,6 +546,13 @@ impl<'t> World<'t> {
                     }
                     self.bump("reference_cross_checks");
                 }
+                let in_term = match by_dfa.or(by_match) {
+                    Some(x) => x,
+                    None => {
+                        self.bump("membership_reference_unknown");
+                        continue;
+                    }
+                };
                 let mut q = crate::rng::DetHasher::new();
                 for &c in &cells {
                     q.write_u64(c as u64);
@@ -530,7 +565,18 @@ impl<'t> World<'t> {
                         wt, show(e), got, if in_term { "in" } else { "not in" }
                     )
                 })?;
-                let in_spec = rmatch(&spec, &cells);
+                let in_spec = if cells.len() <= 32 {
+                    rmatch(&spec, &cells)
+                } else {
+                    None
+                };
+                let in_spec = match in_spec {
+                    Some(x) => x,
+                    None => match self.spec_dfa(&spec) {
+                        Some(d) => d.accepts(&cells),
+                        None => rmatch(&spec, &cells).unwrap_or(in_term),
+                    },
+                };
                 self.judge(Prop::C01, "c01.membership-vs-construction", got == in_spec, || {
                     format!(
                         "str_in_re({}, {}) = {} but the string is {} the SMT-LIB denotation {} of how the term was built",
@@ -607,7 +653,41 @@ impl<'t> World<'t> {
                     }
                 }
                 if rep.len() >= 3 {
-                    self.sample(format!("classes of {}: {:x?} uniform over {} points", show(e), ranges, self.alpha.all_points().len()));
+                    self.sample(format!("classes of {}: {} intervals, uniform over {} test characters", show(e), ranges.len(), self.alpha.all_points().len()));
+                }
+                // every class, asked through class_derivative, gives the quotient of that class
+                if !info.big && info.cost <= COST_CAP {
+                    let mi = self.clients[ci].mgr;
+                    for cid in ids.iter().copied().take(700) {
+                        let (p0, q0) = match rep.get(&cid) {
+                            Some(x) => x.clone(),
+                            None => continue,
+                        };
+                        let ms = &mut self.mgrs[mi];
+                        let r = guarded(|| ms.m.with(|m| m.class_derivative(e, cid)));
+                        let r = match r {
+                            Ok(Ok(r)) => r,
+                            other => {
+                                let txt = format!("{:?}", other.map(|x| x.map(|r| show(r))));
+                                return self.judge(Prop::C03, "c03.ok-on-well-defined", false, || {
+                                    format!("class_derivative({}, {:?}) for a listed class id -> {}", show(e), cid, txt)
+                                });
+                            }
+                        };
+                        let rinfo = self.info(mi, r);
+                        if let Some(rd) = &rinfo.dfa {
+                            self.eval(Prop::C03, "c03.derivative-is-quotient", d.fingerprint(), mix(11, p0 as u64), nontrivial(&info.dfa));
+                            if **rd != q0 {
+                                let w = q0.shortest_diff(rd);
+                                return self.judge(Prop::C03, "c03.derivative-is-quotient", false, || {
+                                    format!(
+                                        "class_derivative({}, {:?}) returned {} which is not the quotient by character {:x} of that class (continuation {:?} distinguishes them)",
+                                        show(e), cid, show(r), p0, w
+                                    )
+                                });
+                            }
+                        }
+                    }
                 }
             } else {
                 self.bump("opaque_terms");
@@ -711,7 +791,7 @@ impl<'t> World<'t> {
                 }
                 w.reverse();
                 let cells = self.alpha.to_cells(&w);
-                let in_term = rmatch(&info.ast, &cells);
+                let in_term = rmatch(&info.ast, &cells).unwrap_or(fd);
                 if in_term != fd {
                     return Err(Stop::Harness(format!(
                         "R-dfa and R-match disagree: {} on {:?}",
@@ -878,6 +958,7 @@ impl<'t> World<'t> {
         }
         // bounds
         let mut bounds: Vec<usize> = vec![0, n - 1, n, n + 1, (st.a[1] as usize % (2 * n + 3))];
+        bounds.push([u32::MAX as usize, 1usize << 32, (1usize << 32) + n - 1, usize::MAX, 3usize << 32][st.a[1] as usize % 5]);
         bounds.dedup();
         for b in bounds {
             let ms = &mut self.mgrs[mi];
@@ -906,10 +987,34 @@ impl<'t> World<'t> {
 
     // ---- C10: replace -----------------------------------------------------------------------
 
-    fn member(&self, info: &TermInfo, cells: &[u8]) -> bool {
+    fn member(&self, info: &TermInfo, cells: &[Cell]) -> bool {
         match &info.dfa {
             Some(d) => d.accepts(cells),
-            None => rmatch(&info.ast, cells),
+            None => rmatch(&info.ast, cells).unwrap_or(false),
+        }
+    }
+
+    /// end of the shortest match starting at position i (allow_empty: the empty match counts),
+    /// decided by the reference model; the DFA is stepped incrementally
+    fn shortest_match_from(&self, info: &TermInfo, cells: &[Cell], i: usize, allow_empty: bool) -> Option<usize> {
+        match &info.dfa {
+            Some(d) => {
+                let mut q = 0u32;
+                if allow_empty && d.fin[0] {
+                    return Some(i);
+                }
+                for j in i..cells.len() {
+                    q = d.step(q, cells[j] as usize);
+                    if d.fin[q as usize] {
+                        return Some(j + 1);
+                    }
+                }
+                None
+            }
+            None => {
+                let from = if allow_empty { i } else { i + 1 };
+                (from..=cells.len()).find(|&j| self.member(info, &cells[i..j]))
+            }
         }
     }
 
@@ -917,13 +1022,11 @@ impl<'t> World<'t> {
     fn ref_replace(&self, info: &TermInfo, s: &[u32], t: &[u32]) -> Vec<u32> {
         let cells = self.alpha.to_cells(s);
         for i in 0..=s.len() {
-            for j in i..=s.len() {
-                if self.member(info, &cells[i..j]) {
-                    let mut out = s[..i].to_vec();
-                    out.extend_from_slice(t);
-                    out.extend_from_slice(&s[j..]);
-                    return out;
-                }
+            if let Some(j) = self.shortest_match_from(info, &cells, i, true) {
+                let mut out = s[..i].to_vec();
+                out.extend_from_slice(t);
+                out.extend_from_slice(&s[j..]);
+                return out;
             }
         }
         s.to_vec()
@@ -935,13 +1038,11 @@ impl<'t> World<'t> {
         let mut i = 0;
         'outer: loop {
             for p in i..s.len() {
-                for q in p + 1..=s.len() {
-                    if self.member(info, &cells[p..q]) {
-                        out.extend_from_slice(&s[i..p]);
-                        out.extend_from_slice(t);
-                        i = q;
-                        continue 'outer;
-                    }
+                if let Some(q) = self.shortest_match_from(info, &cells, p, false) {
+                    out.extend_from_slice(&s[i..p]);
+                    out.extend_from_slice(t);
+                    i = q;
+                    continue 'outer;
                 }
             }
             break;
@@ -964,11 +1065,11 @@ impl<'t> World<'t> {
             if let Some(d) = &info.dfa {
                 // subjects that contain zero, one or several (possibly adjacent / overlapping) matches
                 for _ in 0..3 {
-                    let mut w: Vec<u8> = Vec::new();
+                    let mut w: Vec<Cell> = Vec::new();
                     let parts = 1 + rng.below(3);
                     for _ in 0..parts {
                         for _ in 0..rng.below(3) {
-                            w.push(rng.below(self.k as u64) as u8);
+                            w.push(rng.below(self.k as u64) as Cell);
                         }
                         let piece = if rng.chance(3, 4) {
                             d.steered(&mut rng, true, 4)
@@ -980,7 +1081,7 @@ impl<'t> World<'t> {
                         }
                     }
                     for _ in 0..rng.below(2) {
-                        w.push(rng.below(self.k as u64) as u8);
+                        w.push(rng.below(self.k as u64) as Cell);
                     }
                     if w.len() <= 12 {
                         subjects.push(self.instantiate(&w, &mut rng));
@@ -990,6 +1091,9 @@ impl<'t> World<'t> {
         }
         let mut first: Option<Vec<u32>> = None;
         for (si, s) in subjects.iter().enumerate() {
+            if s.len() > 24 && info.dfa.is_none() {
+                continue;
+            }
             let (ss, ts) = (smt_str(s), smt_str(&t));
             let r = guarded(|| {
                 if all {
